@@ -405,6 +405,16 @@ func (j *packedJob) prepare() bool {
 				} else if l == L-1 {
 					off = "last"
 				}
+				// A body whose missing tail looks like the start of a record header ("[sha1-…",
+				// "[sha224-…") is completed byte for byte by whatever record is appended next: after
+				// an append the state is physically "full-noindex", not torn.  Such a state would be
+				// judged under the wrong name (false alarm at seed 51: the 77-byte blob ended in
+				// '['), so it is left out and counted; the class is covered by the other cuts.
+				if s := rec[l:]; bytes.HasPrefix([]byte("[sha1-"), s) || bytes.HasPrefix([]byte("[sha224-"), s) ||
+					bytes.HasPrefix(s, []byte("[sha1-")) || bytes.HasPrefix(s, []byte("[sha224-")) {
+					r.Count("torn_body_states_left_out_tail_completed_by_next_record", 1)
+					continue
+				}
 			}
 			content := map[string][]byte{name: append(append([]byte(nil), old...), rec[:l]...)}
 			if l <= atIndex {
